@@ -28,7 +28,40 @@ from pyiron_workflow.nodes import standard
 from pyiron_workflow.nodes.for_loop import for_node_factory
 from pyiron_workflow.nodes.transform import inputs_to_list_factory, list_to_outputs_factory
 
-from . import nodes
+from . import execsim, nodes
+
+SCHED: list = []  # the scheduler of the run in progress (global so that executor INSTRUCTIONS find it in any copy)
+
+
+class CtlByInstruction(execsim.CtlExecutor):
+    """what an executor instruction `(CtlByInstruction, (), {})` builds: a controllable executor of the current run"""
+
+    def __init__(self):
+        super().__init__(SCHED[0], "ctl")
+
+
+class SnapScheduler(execsim.Scheduler):
+    """a scheduler that, at its `snap_at`-th schedule point, lets the harness pickle the graph root — with children out
+    on the executor, from inside a completion callback, at the composite's idle point … — deterministically"""
+
+    def __init__(self, choices, snap_at=None):
+        super().__init__(choices)
+        self.snap_at = snap_at
+        self.count = 0
+
+    def _maybe_snap(self):
+        self.count += 1
+        if self.snap_at is not None and self.count == self.snap_at and ROOT and SNAP_HOOK:
+            SNAPS.append(SNAP_HOOK[0](ROOT[0]))
+
+    def at_emit(self):
+        self._maybe_snap()
+        super().at_emit()
+
+    def at_sleep(self, *a):
+        self._maybe_snap()
+        super().at_sleep(*a)
+
 
 CUR: list = []  # stack of graph specs for the macro creators
 ROOT: list = []  # the graph root a Snap node pickles from inside a run
@@ -52,6 +85,8 @@ KIND_IO = {
     "if": (["condition"], ["truth"]),
     "loc": (["a"], ["o"]),
     "forsnap": (["a", "b"], ["o", "a"]),
+    "T": (["i", "s", "u", "b"], ["oi", "os", "ou"]),
+    "TO": (["i", "s", "u", "b"], ["oi", "os", "ob"]),
 }
 MACRO_ARGS = {"M1": ["x"], "M2": ["x", "y"], "M3": ["x", "y", "z"]}
 
@@ -119,6 +154,10 @@ def make_child(spec):
         n = Loc(label=label)
     elif kind == "forsnap":
         n = ForSnap(label=label)
+    elif kind == "T":
+        n = nodes.Typed(label=label)
+    elif kind == "TO":
+        n = nodes.TypedOut(label=label)
     elif kind == "ui":
         n = standard.UserInput(label=label)
     elif kind == "add":
@@ -131,12 +170,18 @@ def make_child(spec):
         raise ValueError(f"unknown kind {kind}")
     for k, v in const.items():
         n.inputs[k].value = _val(v)
+    for k in spec.get("nonstrict", []):
+        n.inputs[k].strict_hints = False  # accepts any connection / value for now
     if spec.get("nocache"):
         n.use_cache = False
     if spec.get("exec") == "instr":
         from concurrent.futures import ThreadPoolExecutor
 
         n.executor = (ThreadPoolExecutor, (), {"max_workers": 1})
+    elif spec.get("exec") == "ctl":
+        n.executor = execsim.CtlExecutor(SCHED[0], "ctl")  # a live executor object (not part of any state)
+    elif spec.get("exec") == "ctli":
+        n.executor = (CtlByInstruction, (), {})  # instructions: survive the round trip
     return n
 
 
